@@ -29,7 +29,7 @@ OWN = {('C01', 'valid_matching'), ('C02', 'no_exception'), ('C02', 'status_vs_re
 
 def plan(tier):
     return {'cases_per_shard': 110 if tier == 'quick' else 2200,
-            'time_cap_s': 45 if tier == 'quick' else 560}
+            'time_cap_s': 90 if tier == 'quick' else 560}
 
 
 def run_case(cs, ctx):
